@@ -15,6 +15,10 @@ KNOWN = [
      "Not repairable inside py7zr (prebuilt wheels)."),
     ("C07", "codec-library/pyppmd-roundtrip", "same pyppmd defect as C01: the reference reader cannot decode what pyppmd's encoder produced for that input either."),
     ("C08", "codec-library/pyppmd-roundtrip", "same pyppmd defect as C01, met in an append session with a PPMd chain."),
+    ("C01", "codec-library/pybcj-small-feeds",
+     "the third-party branch-filter decoders (pybcj 1.0.8; seen with ARMT), driven directly and alone, mis-decode their own encoder's output when fed in pieces of 1-2 bytes. py7zr hands such "
+     "pieces over only when the extraction chunk limit is 1 or 2 bytes (get_memory_limit() under an absurdly tight RLIMIT_DATA) and the decoder in front of the filter honours max_length "
+     "(BZip2, LZMA1, and since the C20 repair also Deflate/ZStandard/Brotli). The classifier replays the feed sizes through pybcj alone. Not repairable inside py7zr (prebuilt wheel)."),
     ("C01", "write-raises/RecursionError/mv",
      "third-party multivolumefile recurses once per volume crossed by a single write(): a 64-byte volume size with a 64 KiB member (py7zr hands whole I/O blocks to write()) exceeds "
      "Python's recursion limit. The volumes written before the error are discarded by the failing session. Not repairable inside py7zr without re-chunking every write for that library."),
